@@ -18,12 +18,13 @@ def run(ctx):
         e5.kernel_job(ctx, 'k_myesc.c', name='myesc_safe', harness_bound=8, timeout=300, checks='safety'),
         e5.kernel_job(ctx, 'k_myesc.c', name='myesc_w', defines=['VP_WITNESS'], harness_bound=8, timeout=300, expect='witness'),
     ]
-    for k in ('k_linedir.c', 'k_limits.c'):
-        if os.path.exists(os.path.join(e5.KDIR, k)):
-            jobs.append(e5.kernel_job(ctx, k, harness_bound=220, timeout=600, checks='safety'))
+    for w, fn in ((0, 'new_rule'), (1, 'mkstate')):
+        jobs.append(e5.kernel_job(ctx, 'k_limits.c', name='limits_' + fn, defines=['VP_WHICH=%d' % w], harness_bound=4, timeout=300, checks='safety'))
+        jobs.append(e5.kernel_job(ctx, 'k_limits.c', name='limits_%s_w' % fn, defines=['VP_WHICH=%d' % w, 'VP_WITNESS'], harness_bound=4, timeout=300, expect='witness'))
     ctx.run_cbmc(jobs)
-    ctx.functions.update(['filter_tee_header', 'flex_main (exit path)', 'myesc'])
+    ctx.functions.update(['filter_tee_header', 'flex_main (exit path)', 'myesc', 'new_rule', 'mkstate'])
     output_failures(ctx)
+    output_limit_sweep(ctx, quick)
     malformed_inputs(ctx, quick)
     ctx.assume('stdio, wait, dup and freopen are stubs returning arbitrary results within their documented contracts; FLEX_EXIT/longjmp is a stub that records the status and ends the path')
     ctx.assume('cbmc 6.11 + MiniSat sound; --unwinding-assertions on every query')
@@ -38,35 +39,145 @@ def _flex(ctx, args, cwd, inp=None, timeout=60):
         return (-999, '', 'TIMEOUT')
 
 
+def _dev_full_ok():
+    """/dev/full must be the real character device (1,7); as root a broken flex
+    can unlink it, after which the path names an ordinary file."""
+    import stat
+    try:
+        st = os.stat('/dev/full')
+    except OSError:
+        return False
+    return stat.S_ISCHR(st.st_mode) and os.major(st.st_rdev) == 1 and os.minor(st.st_rdev) == 7
+
+
+def _run_limited(cmd, cwd, fds=None, fsize=None, stdout_path=None, timeout=60):
+    """Run flex with (a) extra descriptors opened on /dev/full, named on the
+    command line as /dev/fd/N (flex cannot unlink those), or (b) RLIMIT_FSIZE
+    with SIGXFSZ ignored, so that writes to regular files fail with EFBIG."""
+    import resource, signal
+    env = dict(os.environ)
+    env['LC_ALL'] = 'C'
+    env.pop('POSIXLY_CORRECT', None)
+    opened = []
+    pass_fds = []
+    for fd in (fds or []):
+        h = os.open('/dev/full', os.O_WRONLY)
+        os.dup2(h, fd)
+        os.close(h)
+        os.set_inheritable(fd, True)
+        opened.append(fd)
+        pass_fds.append(fd)
+
+    def pre():
+        if fsize is not None:
+            signal.signal(signal.SIGXFSZ, signal.SIG_IGN)
+            resource.setrlimit(resource.RLIMIT_FSIZE, (fsize, fsize))
+    so = subprocess.PIPE
+    fh = None
+    if stdout_path:
+        fh = open(stdout_path, 'wb')
+        so = fh
+    try:
+        p = subprocess.run(cmd, cwd=cwd, stdout=so, stderr=subprocess.PIPE, env=env, pass_fds=pass_fds,
+                           preexec_fn=pre, timeout=timeout)
+        rc, se = p.returncode, p.stderr.decode('latin-1')
+    except subprocess.TimeoutExpired:
+        rc, se = -999, 'TIMEOUT'
+    finally:
+        if fh:
+            fh.close()
+        for fd in opened:
+            os.close(fd)
+    return rc, se
+
+
 def output_failures(ctx):
-    """Exit status 0 only if every requested output was written (real binary, /dev/full)."""
+    """Exit status 0 only if every requested output was written (real binary).
+    Two independent ways of making one output unwritable: a descriptor on
+    /dev/full (ENOSPC) and a file-size limit (EFBIG) that only the named
+    output runs into (the others go to a pipe or stay below the limit)."""
+    tree = ctx.ensure_tree()
     wd = ctx.subdir('outfail')
     with open(os.path.join(wd, 'in.l'), 'w') as fh:
         fh.write('%option noyywrap\n%%\na+b return 1;\n.|\\n ;\n%%\n')
-    cases = [
-        ('scanner', ['-o', '/dev/full', 'in.l']),
-        ('stdout', None),
-        ('header', ['--header-file=/dev/full', '-o', 'ok.c', 'in.l']),
-        ('tables', ['--tables-file=/dev/full', '-o', 'ok.c', 'in.l']),
-        ('header_c99', ['--emit=c99', '--header-file=/dev/full', '-o', 'ok99.c', 'in.l']),
+    F = tree.flex
+    cases = []
+    if _dev_full_ok():
+        cases += [
+            ('scanner', [F, '-o', '/dev/fd/9', 'in.l'], dict(fds=[9])),
+            ('stdout', [F, '-t', 'in.l'], dict(stdout_path='/dev/full')),
+            ('header', [F, '--header-file=/dev/fd/9', '-o', 'ok.c', 'in.l'], dict(fds=[9])),
+            ('tables', [F, '--tables-file=/dev/fd/9', '-o', 'ok.c', 'in.l'], dict(fds=[9])),
+            ('header_c99', [F, '--emit=c99', '--header-file=/dev/fd/9', '-o', 'ok99.c', 'in.l'], dict(fds=[9])),
+        ]
+    else:
+        ctx.notes.append('/dev/full is not the (1,7) character device in this sandbox: ENOSPC cases skipped, EFBIG cases only')
+    # file-size limit 512 bytes: every flex output is larger; outputs not under test go to the stdout pipe
+    cases += [
+        ('scanner_efbig', [F, '-o', 'lim.c', 'in.l'], dict(fsize=512)),
+        ('stdout_efbig', [F, '-t', 'in.l'], dict(fsize=512, stdout_path=os.path.join(wd, 'lim_stdout.c'))),
+        ('header_efbig', [F, '-t', '--header-file=lim.h', 'in.l'], dict(fsize=512)),
+        ('tables_efbig', [F, '-t', '--tables-file=lim.tables', 'in.l'], dict(fsize=100)),
+        ('header_c99_efbig', [F, '--emit=c99', '-t', '--header-file=lim99.h', 'in.l'], dict(fsize=512)),
+        ('backup_efbig', [F, '-t', '-b', 'inb.l'], dict(fsize=16)),
     ]
-    for name, args in cases:
-        if args is None:
-            tree = ctx.ensure_tree()
-            p = subprocess.run('%s -t in.l > /dev/full' % tree.flex, shell=True, cwd=wd, stdout=subprocess.PIPE, stderr=subprocess.PIPE)
-            rc, se = p.returncode, p.stderr.decode('latin-1')
-        else:
-            rc, so, se = _flex(ctx, args, wd)
-        ok = rc != 0 and se.strip() != ''
+    with open(os.path.join(wd, 'inb.l'), 'w') as fh:
+        fh.write('%option noyywrap\n%%\nfoobar return 1;\nfoo return 2;\n' + ''.join('k%dzz return %d;\n' % (i, i + 3) for i in range(40)) + '%%\n')
+    for name, cmd, kw in cases:
+        rc, se = _run_limited(cmd, wd, **kw)
+        ok = rc != 0 and rc != -999 and 0 < rc < 128 and se.strip() != ''
         ctx.record('outfail_' + name, 'ok' if ok else 'violated', engine='flex-run', detail='rc=%s stderr=%s' % (rc, se.strip()[:120]))
         if not ok:
             ctx.violation('outfail_' + name, 'output %s cannot be written but flex exits %s (%r)' % (name, rc, se[:200]),
-                          dict(args=args, rc=rc, stderr=se), key=dict(entry=name, engine='flex-run', assertion='exit status honest'))
-    # sanity: the same run with writable outputs succeeds
-    rc, so, se = _flex(ctx, ['--header-file=ok.h', '-o', 'ok.c', 'in.l'], wd)
-    ctx.record('outfail_control', 'ok' if rc == 0 else 'violated', engine='flex-run', detail='rc=%s' % rc)
-    if rc != 0:
-        ctx.violation('outfail_control', 'flex fails on writable outputs: %r' % se[:200], dict(rc=rc, stderr=se), key=dict(entry='control', engine='flex-run'))
+                          dict(args=cmd[1:], how=str(kw), rc=rc, stderr=se), key=dict(entry=name, engine='flex-run', assertion='exit status honest'))
+    # sanity: the same runs with writable outputs succeed (also under the SIGXFSZ/limit machinery with a large limit)
+    for name, cmd, kw in [('control', [F, '--header-file=ok.h', '--tables-file=ok.tables', '-o', 'ok.c', 'in.l'], dict(fsize=1 << 30)),
+                          ('control_backup', [F, '-t', '-b', 'inb.l'], dict(fsize=1 << 30))]:
+        rc, se = _run_limited(cmd, wd, **kw)
+        ctx.record('outfail_' + name, 'ok' if rc == 0 else 'violated', engine='flex-run', detail='rc=%s' % rc)
+        if rc != 0:
+            ctx.violation('outfail_' + name, 'flex fails on writable outputs: %r' % se[:200], dict(rc=rc, stderr=se), key=dict(entry=name, engine='flex-run'))
+
+
+def output_limit_sweep(ctx, quick):
+    """Fault enumeration on the real binary: for each kind of output, the
+    write failure (EFBIG) is placed at byte k of that output for k over a set
+    of positions incl. the last bytes and the stdio-buffer boundaries; flex
+    must exit non-zero with a diagnostic at every k < size."""
+    tree = ctx.ensure_tree()
+    wd = ctx.subdir('outsweep')
+    with open(os.path.join(wd, 'in.l'), 'w') as fh:
+        fh.write('%option noyywrap\n%%\na+b return 1;\n.|\\n ;\n%%\n')
+    F = tree.flex
+    kinds = [('scanner', [F, '-o', 's.c', 'in.l'], 's.c'),
+             ('header', [F, '-t', '--header-file=s.h', 'in.l'], 's.h'),
+             ('tables', [F, '-t', '--tables-file=s.tables', 'in.l'], 's.tables'),
+             ('header_c99', [F, '--emit=c99', '-t', '--header-file=s9.h', 'in.l'], 's9.h')]
+    total = bad = 0
+    for name, cmd, out in kinds:
+        rc, se = _run_limited(cmd, wd, fsize=1 << 30)
+        if rc != 0:
+            ctx.record('outsweep_' + name, 'error', engine='flex-run', detail='control run failed rc=%s' % rc)
+            ctx.broken.append('outsweep control run failed for ' + name)
+            continue
+        full = os.path.getsize(os.path.join(wd, out))
+        step = max(1, full // (12 if quick else 150))
+        ks = set(range(0, full, step))
+        ks.update(full - d for d in (1, 2, 3, 5, 10, 100, 1000, 4095, 4096, 4097, 8192) if full - d >= 0)
+        fails = []
+        for k in sorted(ks):
+            rc, se = _run_limited(cmd, wd, fsize=k)
+            total += 1
+            if not (0 < rc < 128 and se.strip()):
+                fails.append((k, rc))
+        st = 'ok'
+        if fails:
+            bad += len(fails)
+            st = ctx.violation('outsweep_' + name, 'write failure at byte %d of the %s output (size %d): flex exits %s' % (fails[0][0], name, full, fails[0][1]),
+                               dict(args=cmd[1:], limits_failing=fails[:20], size=full), key=dict(entry=name, engine='flex-run', assertion='exit status honest at every truncation point'))
+            st = 'violated' if st == 'violation' else 'known-finding'
+        ctx.record('outsweep_' + name, st, engine='flex-run', detail='%d failure positions in an output of %d bytes' % (len(ks), full))
+    ctx.extra_cov['fault_positions_tried'] = total
 
 
 MALFORMED = [
